@@ -4,6 +4,7 @@ import (
 	"encoding/binary"
 	"fmt"
 	"runtime"
+	"strings"
 	"sync"
 	"sync/atomic"
 	"time"
@@ -39,9 +40,13 @@ type scenarioSpec struct {
 	Stall bool `json:"stall,omitempty"`
 	// TimeoutMs: the client's Timeout (dial / write deadline); IdleMs: every sender pauses that long
 	// after each send, so the healthy connection gets older than the timeout between sends.
-	TimeoutMs int    `json:"timeout_ms,omitempty"`
-	IdleMs    int    `json:"idle_ms,omitempty"`
-	Seed      uint64 `json:"seed"`
+	TimeoutMs int `json:"timeout_ms,omitempty"`
+	IdleMs    int `json:"idle_ms,omitempty"`
+	// ApplyConfigs: that many calls of ApplyConfig with a changed server list (same collector: the
+	// client closes and re-dials) while the senders run.  The collector stand-in then listens on
+	// port 6600, the only port ApplyConfig can point the client at.
+	ApplyConfigs int    `json:"apply_configs,omitempty"`
+	Seed         uint64 `json:"seed"`
 }
 
 type observation struct {
@@ -52,9 +57,15 @@ type observation struct {
 	Infra     string       `json:"infra,omitempty"`
 	Recovered bool         `json:"recovered"`
 	Attempts  int          `json:"recovery_attempts"`
+	CapEvents []capEvent   `json:"capacity_changes,omitempty"`
 	Nonce     int32        `json:"-"`
 	Panics    []string     `json:"panics,omitempty"`
 	WallMs    int64        `json:"wall_ms"`
+}
+
+type capEvent struct {
+	Stamp int64 `json:"stamp"`
+	Cap   int   `json:"cap"`
 }
 
 type scen struct {
@@ -102,7 +113,8 @@ func (sc *scen) doSend(r *vh.Rng, sender, seq, big int) *sendRec {
 	sc.sends = append(sc.sends, rec)
 	sc.mu.Unlock()
 	var made int64
-	p := &tpack{TextPack: tp, onWrite: func() {
+	p := &tpack{TextPack: tp, rec: rec, onWrite: func() {
+		atomic.StoreInt64(&rec.taken, sc.clk.tick()) // the client has the pack in hand (queue mode: it left the queue)
 		// only the consumer goroutine is stalled: a pack written by its sender must not wait here
 		if sc.gate != nil && atomic.LoadInt32(&sc.gated) == 1 && inProcessGoroutine() {
 			<-sc.gate
@@ -198,7 +210,11 @@ func runScenario(spec scenarioSpec) *observation {
 	clk := &clock{}
 	lg := &hookLogger{clk: clk}
 	obs := &observation{Spec: spec}
-	srv, err := newServer(clk, lg, spec.Script)
+	port := 0
+	if spec.ApplyConfigs > 0 {
+		port = 6600
+	}
+	srv, err := newServerPort(clk, lg, spec.Script, port)
 	if err != nil {
 		obs.Infra = "listen: " + err.Error()
 		return obs
@@ -228,8 +244,35 @@ func runScenario(spec scenarioSpec) *observation {
 	if spec.TimeoutMs > 0 {
 		sc.c.Timeout = time.Duration(spec.TimeoutMs) * time.Millisecond
 	}
+	// RequestQueue reports a refused Put through its public Failed hook, inside its lock
+	sc.c.Queue.Failed = func(v interface{}) {
+		if ts, ok := v.(*wnet.TcpSend); ok {
+			if tp, ok := ts.Pack.(*tpack); ok && tp.rec != nil {
+				atomic.StoreInt64(&tp.rec.failStamp, clk.tick())
+			}
+		}
+	}
 	_ = sc.c.Connect()
 	done := sc.c.StartProcessForVerif()
+	var acDone chan struct{}
+	if spec.ApplyConfigs > 0 {
+		// the config observer's goroutine: the server list alternates between two spellings of the same collector
+		acDone = make(chan struct{})
+		host := srv.addr[:strings.LastIndex(srv.addr, ":")]
+		ar := vh.NewRng(spec.Seed ^ 0xac)
+		go func() {
+			defer close(acDone)
+			for k := 1; k <= spec.ApplyConfigs; k++ {
+				time.Sleep(time.Duration(200+ar.Intn(1500)) * time.Microsecond)
+				h := host
+				if k%2 == 1 {
+					h = host + "," + host
+				}
+				conf := &stubConf{m: map[string]string{"license": defaultLicense, "whatap.server.host": h, "pcode": "4711", "oid": "99"}}
+				vh.Guard(func() { sc.c.ApplyConfig(conf) })
+			}
+		}()
+	}
 
 	root := vh.NewRng(spec.Seed)
 	budget := 20 * time.Second
@@ -279,6 +322,9 @@ func runScenario(spec scenarioSpec) *observation {
 		}(s, r)
 	}
 	wg.Wait()
+	if acDone != nil {
+		<-acDone
+	}
 
 	if sc.gate != nil {
 		// reconfigure under the backlog, hand a few more packs after each change, release the consumer
@@ -286,6 +332,7 @@ func runScenario(spec scenarioSpec) *observation {
 		seq := 0
 		for _, capv := range spec.Reconfig {
 			sc.c.Queue.SetCapacity(capv)
+			obs.CapEvents = append(obs.CapEvents, capEvent{sc.clk.tick(), capv})
 			for k := 0; k < 3; k++ {
 				sc.doSend(rr, spec.Senders+1, seq, 0)
 				seq++
